@@ -94,7 +94,8 @@ class ClosureContext {
   // 操作运行中的节点数，节点数到0进入稳态
   // 如果还没有进入终止态，则强制失败终止
   // 析构时也会先等待先进入稳态，确保没有竞争
-  inline void depend_vertex_add() noexcept;
+  // 已经进入稳态(计数归零)后不再接受新的节点，返回false
+  inline bool depend_vertex_add() noexcept;
   // 返回true表示需要executor异步触发回调
   inline void depend_vertex_sub() noexcept;
   inline void add_waiting_data(GraphData* data) noexcept;
